@@ -311,7 +311,10 @@ fn judge(c: &Cfg, b: &Built, amt: u64, found: &mut Vec<Found>) -> (bool, u64) {
             let fee = q_ll.clone() - q_lf.clone();
             // allowance in native units of the debt mint
             let amp = rf::qone() + dl.clone() / pl.clone();
-            let al = rf::ulp() * rf::qi(1024) * amp * (rf::qone() + rf::q(lb.liability_share_value) + rf::q(lb.asset_share_value)) + rf::ulp() * rf::qi(64) * (q_ll.clone() + rf::qone());
+            // ... plus the representation error of the two prices themselves: a price is held at 2^-48
+            // resolution, i.e. with a relative error of up to ulp / price
+            let price_repr = rf::ulp() * rf::qi(8) * (rf::qone() / pa.clone() + rf::qone() / pl.clone() + rf::qone());
+            let al = rf::ulp() * rf::qi(1024) * amp * (rf::qone() + rf::q(lb.liability_share_value) + rf::q(lb.asset_share_value)) + rf::ulp() * rf::qi(64) * (q_ll.clone() + rf::qone()) + q_ll.clone() * price_repr;
             let relief = le_l0.liab.clone() - le_l1.liab.clone();
             if rf::qabs(&(relief.clone() - q_lf.clone())) > al {
                 fail("C05.split_liquidatee_95", format!("liquidatee's debt fell by {:.9} but 95% of the seized value is {:.9} native units", rf::qf64(&relief), rf::qf64(&q_lf)));
